@@ -131,18 +131,21 @@ def check_design(ctx, d, steps, regmap, memmap, label):
                                       dict(replay, mismatch=bad[:4]))
             # the testbench of the original, unchanged, on the real simulator
             if merge and not regmap:
-                real = simrun.run_real(pyrtl.Simulation, bs, steps, {}, memmap, 0, track=None)
-                if real['err'] is not None:
-                    ok = False
-                    ctx.violation('testbench-raises:' + real['err'][1],
-                                  'Simulation(block=synthesized, memory_value_map={original MemBlock: ...}) raised %s: %s' % (
-                                      real['err'][1], real['err'][2]), replay)
-                else:
+                for simcls in (pyrtl.Simulation, pyrtl.FastSimulation):
+                    real = simrun.run_real(simcls, bs, steps, {}, memmap, 0, track=None)
+                    if real['err'] is not None:
+                        ok = False
+                        ctx.violation('testbench-raises:' + real['err'][1],
+                                      '%s(block=synthesized, memory_value_map={original MemBlock: ...}) raised %s: %s' % (
+                                          simcls.__name__, real['err'][1], real['err'][2]), dict(replay, simulator=simcls.__name__))
+                        break
                     t = simrun.compare_traces(real['trace'], base_tr, names=outs, ncycles=ncyc)
                     if t:
                         ok = False
-                        ctx.violation('testbench-vs-orig', 'original testbench on synthesized block: %s cycle %d got %d want %d' % t,
-                                      dict(replay, mismatch=t))
+                        ctx.violation('testbench-vs-orig:' + simcls.__name__,
+                                      'original testbench (%s, memory_value_map keyed by the original MemBlocks) on the synthesized block: '
+                                      '%s cycle %d got %d want %d' % ((simcls.__name__,) + tuple(t)), dict(replay, mismatch=t, simulator=simcls.__name__))
+                        break
     return ok
 
 
